@@ -139,10 +139,59 @@ func (in *Interp) mutexRUnlock(th *Thread, p Ptr) {
 	in.syncPoint(th, "runlock")
 }
 
+// lockRecord: one acquisition with what the acquiring thread already held
+type lockRecord struct {
+	th   *Thread
+	op   string
+	ls   *lockState
+	held []*lockState
+}
+
 func (in *Interp) lockEvent(th *Thread, ls *lockState, op string) {
 	if in.lockTrace {
 		in.events = append(in.events, fmt.Sprintf("t%d:%s#%d", th.id, op, in.lockIndex(ls)))
 	}
+	if op == "L" || op == "RL" {
+		var held []*lockState
+		for _, k := range in.lockOrd {
+			o := in.locks[k]
+			if o == ls {
+				continue
+			}
+			if o.writer == th || o.readers[th] > 0 {
+				held = append(held, o)
+			}
+		}
+		in.lockHist = append(in.lockHist, lockRecord{th: th, op: op, ls: ls, held: held})
+	}
+}
+
+// lockDiscipline checks the recorded acquisitions against the hierarchy "stripes in increasing index,
+// then any non-stripe lock": 0 ok, 1 a stripe acquired while a stripe with a larger or equal index is
+// held, 2 a stripe acquired while a non-stripe lock is held, 3 a non-stripe lock acquired while
+// another non-stripe lock is held by the same thread (nested shard/stream/channel locks).
+func (in *Interp) lockDiscipline(stripes []Ptr) int {
+	idx := map[*lockState]int{}
+	for i, p := range stripes {
+		if ls, ok := in.locks[lockKey{p.Base, p.Idx}]; ok {
+			idx[ls] = i
+		}
+	}
+	for _, r := range in.lockHist {
+		ri, isStripe := idx[r.ls]
+		for _, h := range r.held {
+			hi, hStripe := idx[h]
+			switch {
+			case isStripe && hStripe && hi >= ri:
+				return 1
+			case isStripe && !hStripe:
+				return 2
+			case !isStripe && !hStripe:
+				return 3
+			}
+		}
+	}
+	return 0
 }
 
 // locksHeld counts locks currently held (by anyone).
